@@ -94,6 +94,19 @@ pub fn exercise<K: Fam>(e: &Enr<K>) -> Result<u64, String> {
     g!("Debug {:400.400?}", format!("{e:400.400?}"));
     g!("Debug {:.0?}", format!("{e:.0?}"));
     g!("Debug {:#010?}", format!("{e:#010?}"));
+    g!("Display/Debug into a sink that formats the record and its node id itself", {
+        struct Tagger<'a, K: EnrKey>(&'a Enr<K>, usize);
+        impl<'a, K: EnrKey> std::fmt::Write for Tagger<'a, K> {
+            fn write_str(&mut self, s: &str) -> std::fmt::Result {
+                self.1 += s.len() + format!("{} {:?} {} {:?}", self.0, self.0, self.0.node_id(), self.0.node_id()).len();
+                Ok(())
+            }
+        }
+        use std::fmt::Write as _;
+        let mut t = Tagger(e, 0);
+        let _ = write!(t, "{e} {e:?} {} {:?}", e.node_id(), e.node_id());
+        t.1
+    });
     g!("NodeId Display flags", format!("{0:.0} {0:.400} {0:>80} {0:+} {0:#} {0:012} {0:*^9.2}", e.node_id()));
     g!("NodeId Debug flags", format!("{0:.0?} {0:.400?} {0:>80?} {0:#?} {0:012?}", e.node_id()));
     g!("Clone+Eq", e.clone() == *e);
@@ -110,7 +123,7 @@ pub fn exercise<K: Fam>(e: &Enr<K>) -> Result<u64, String> {
     g!("length", alloy_rlp::Encodable::length(e));
     g!("encode list", alloy_rlp::encode(&vec![e.clone()]));
     g!("NodeId Debug/Display", format!("{:?} {}", e.node_id(), e.node_id()));
-    Ok(n + 62)
+    Ok(n + 63)
 }
 
 struct V<'a> {
